@@ -1006,3 +1006,51 @@ def _owned_next(eng, st, args, ci):
 @intrinsic(r'^(std|core)::f32::<impl f32>::round$', 'f32::round = round to nearest, ties away from zero (IEEE roundToIntegral RNA)')
 def _f32_round(eng, st, args, ci):
     return FP(z3.fpRoundToIntegral(z3.RNA(), args[0].e))
+
+
+# ---------------------------------------------------------------- lazy adaptors over slices: filter_map / map ... next
+
+@intrinsic(r'^<(std|core)::slice::Iter<.*> as (std::iter::)?Iterator>::filter_map::<', 'slice::Iter::filter_map (lazy adaptor; closure body = real MIR)')
+def _iter_filter_map(eng, st, args, ci):
+    return Tup([args[0], args[1]], 'FilterMap')
+
+
+@intrinsic(r'^<(std::iter::)?FilterMap<(std|core)::slice::Iter<.*>, .*> as (std::iter::)?Iterator>::next$', 'FilterMap::next (forks on the closure result per element)')
+def _filter_map_next(eng, st, args, ci):
+    fm = args[0]
+    if isinstance(fm, Ref):
+        fmv = eng.read_ref(st, fm)
+    else:
+        fmv = fm
+    it, f = fmv.items
+    ref, pos = it.items
+    seq = eng.read_ref(st, ref)
+    p = pos.concrete()
+    n = len(seq.items)
+    results = []
+    live = [st]
+    for j in range(p, n):
+        nxt = []
+        for s in live:
+            el = Ref(ref.key, ref.projs + (('cindex', j),), False)
+            for (s2, kind, val) in eng.call_value(s, f, [el], None):
+                if kind != 'ret':
+                    results.append((s2, kind, val))
+                    continue
+                some_c = val.discr == 1
+                can_some = eng.feasible(s2, some_c)
+                can_none = eng.feasible(s2, z3.Not(some_c))
+                if can_some and can_none:
+                    s3 = s2.fork()
+                    s3.assume(z3.Not(some_c))
+                    nxt.append(s3)
+                    s2.assume(some_c)
+                    results.append((s2, 'ret', Enum('Option', 1, {1: val.payloads[1]})))
+                elif can_some:
+                    results.append((s2, 'ret', Enum('Option', 1, {1: val.payloads[1]})))
+                elif can_none:
+                    nxt.append(s2)
+        live = nxt
+    for s in live:
+        results.append((s, 'ret', NONE))
+    return results
